@@ -53,13 +53,22 @@ def collect(p, spec, errp):
     err = ""
     try:
         with open(errp, errors="replace") as f:
-            err = f.read()[-6000:]
+            err = f.read()[-20000:]
     except OSError:
         pass
     if os.path.exists(spec["out"]):
         with open(spec["out"]) as f:
             return json.load(f), False, err
     return None, True, err
+
+
+def sanitizer_summary(err):
+    """the informative part of a sanitizer / assertion report"""
+    lines = err.splitlines()
+    for i, l in enumerate(lines):
+        if "ERROR: AddressSanitizer" in l or "runtime error:" in l or "test condition failed" in l or "ERROR: LeakSanitizer" in l or "WARNING: ThreadSanitizer" in l:
+            return "\n".join(lines[max(0, i - 1):i + 14])
+    return err[-1500:]
 
 
 def replay_case(prop, cfg, test, case, workdir, times=3, timeout=1800):
@@ -221,7 +230,7 @@ def _run(prop, tier, seed, mod, workdir, t0):
                 if case is None:
                     infra = "worker died without journal (cfg=%s test=%s): %s" % (j["cfg"], j["test"], err[-3000:])
                 else:
-                    failure = ({"test": case["test"], "case": case["case"], "message": "worker crashed (sanitizer / assertion / signal %s): %s" % (p.returncode, err[-3000:]),
+                    failure = ({"test": case["test"], "case": case["case"], "message": "worker crashed (sanitizer / assertion / signal %s): %s" % (p.returncode, sanitizer_summary(err)),
                                 "signature": None, "details": {}}, j["cfg"], True)
             elif not res["ok"]:
                 infra = "harness error (cfg=%s test=%s): %s" % (j["cfg"], j["test"], res["error"])
